@@ -98,6 +98,8 @@ def check(ctx):
         reach = prog.reach([g])
         n_src = 0
         for k in sorted(reach):
+            if prog.absorbed(k):
+                continue   # new helper, examined inside its callers' inlined views
             b = prog.body(k)
             if b.crate not in ("tacd", "acme_common"):
                 continue
